@@ -43,7 +43,7 @@ def zoo_leaf(v, dt, ec):
         extra.append(st.sampled_from(INVALID[dt]))
     if dt in OVERLONG:
         extra.append(st.just(OVERLONG[dt]))
-    if dt + '#2' in OVERLONG:
+    if dt and dt + '#2' in OVERLONG:
         extra.append(st.just(OVERLONG[dt + '#2']))      # (few significant digits: short in scientific notation, long as written)
     if not extra:
         return base
